@@ -345,9 +345,9 @@ def State.upd (s : State) (k : Key) (f : StreamSt → StreamSt) : State :=
 def State.release (s : State) (f : RFrame) : State :=
   { s with countAvail := s.countAvail + 1, sizeAvail := s.sizeAvail + f.size }
 
-def State.releaseOpt (s : State) : Option RFrame → State
-  | none => s
-  | some f => s.release f
+def State.releaseOpt (s : State) (o : Option RFrame) : State :=
+  { s with countAvail := s.countAvail + (match o with | none => 0 | some _ => 1),
+           sizeAvail := s.sizeAvail + (match o with | none => 0 | some f => f.size) }
 
 /-- hand a frame to the transport writer -/
 def State.emit (s : State) (k : Key) (fk : FK) (data : List Nat) : State :=
